@@ -66,6 +66,7 @@ func TestMain(m *testing.M) {
 	log.SetOutput(io.Discard)
 	f := &refutil.TypeFactory{}
 	refutil.RegisterType[CatNode](f)
+	refutil.RegisterType[IntsNode](f)
 	generator.RegisterTypes(f)
 	vh.Main(m, vh.Meta{
 		ID:    "C13",
@@ -73,7 +74,8 @@ func TestMain(m *testing.M) {
 		Rule: "rapid-generated concurrent scripts: 2..6 client goroutines, each 3..10 operations drawn from UpdateParameter(p, unique value) / ParameterData(p) / Artifact(name) on a graph whose two producers depend on 4 string parameters through shared and two-level nodes (processors yield between input reads), started behind a barrier with drawn yields and GOMAXPROCS 2..16; every operation is stamped at invocation and response by one atomic logical clock. " +
 			"Oracle: porcupine.CheckOperations against the sequential model (state = vector of parameter values; ParameterData returns the current value; an artifact equals the rendering of the WHOLE vector at its linearization point) - this rules out mixtures of two states and values older than a completed update; the binary is built with -race and any race report or crash is a violation. " +
 			"Non-trivial = the history contains an artifact read overlapping >= 2 updates of different parameters issued in sequence by one other client. Distinct by script JSON (the schedule itself is not owned). " +
-			"Sub-check typed-histories: the same over a string, a float64 (0 / -0), a point-list and a file parameter (optionally given on the command line and untouched), values repeated or unique; every typed history is counted non-trivial.",
+			"Sub-check typed-histories: the same over a string, a float64 (0 / -0), a point-list and a file parameter (optionally given on the command line and untouched), values repeated or unique; every typed history is counted non-trivial. " +
+			"Sub-check int-histories: thirteen parameter.Int nodes (ids Node-0..Node-12, values 0..39 as bare numbers) feeding one artifact through an array input; 2..4 clients of 4..12 operations (two thirds updates) and a final artifact read after all clients have finished; every history non-trivial.",
 		Assumptions: []string{
 			"real threads: schedules are sampled, not enumerated; the race detector gives the schedule-independent part (unsynchronised accesses that overlap at all)",
 			"failing histories are printed in full; they cannot be shrunk or replayed deterministically (the replay path re-runs the script 50x)",
@@ -778,8 +780,205 @@ func runTyped(c TCase, o *vh.Obs) *vh.Failure {
 	return nil
 }
 
+// ---------------------------------------------------------------- many numeric parameters
+
+// IntsData renders all its inputs; thirteen int parameters feed it, so node ids run from Node-0 to
+// Node-12 (ids that are prefixes of one another) and message bodies are bare numbers.
+type IntsData struct {
+	Values []nodes.NodeOutput[int]
+}
+
+func (d IntsData) Process() (string, error) {
+	var sb strings.Builder
+	for i, v := range d.Values {
+		if i == len(d.Values)/2 {
+			runtime.Gosched()
+		}
+		if v != nil {
+			fmt.Fprintf(&sb, "%d,", v.Value())
+		} else {
+			sb.WriteString("-,")
+		}
+	}
+	return sb.String(), nil
+}
+
+type IntsNode = nodes.Struct[string, IntsData]
+
+const nInts = 13
+
+type ICase struct {
+	Clients [][]LOp // Param: parameter 0..12; Yield doubles as the value source (see runInts)
+	Vals    [][]int // per client, per operation: the value of an update (0..39)
+	Procs   int
+}
+
+func genInts(t *rapid.T) ICase {
+	nc := rapid.IntRange(2, 4).Draw(t, "clients")
+	c := ICase{Procs: rapid.SampledFrom([]int{2, 4, 16}).Draw(t, "procs")}
+	for i := 0; i < nc; i++ {
+		n := rapid.IntRange(4, 12).Draw(t, "ops")
+		var script []LOp
+		var vals []int
+		for k := 0; k < n; k++ {
+			script = append(script, LOp{Kind: rapid.SampledFrom([]int{0, 0, 0, 0, 1, 2}).Draw(t, "kind"), Param: rapid.IntRange(0, nInts-1).Draw(t, "param"), Yield: rapid.IntRange(0, 2).Draw(t, "yield")})
+			vals = append(vals, rapid.IntRange(0, 39).Draw(t, "value"))
+		}
+		c.Clients, c.Vals = append(c.Clients, script), append(c.Vals, vals)
+	}
+	return c
+}
+
+func renderInts(s [nInts]int) string {
+	var sb strings.Builder
+	for _, v := range s {
+		fmt.Fprintf(&sb, "%d,", v)
+	}
+	return sb.String()
+}
+
+var intsModel = porcupine.Model{
+	Init: func() interface{} { return [nInts]int{} },
+	Step: func(state, input, output interface{}) (bool, interface{}) {
+		s := state.([nInts]int)
+		o := input.(linIn)
+		switch o.kind {
+		case 0:
+			v, _ := strconv.Atoi(o.val)
+			s[o.param] = v
+			return true, s
+		case 1:
+			return output.(string) == strconv.Itoa(s[o.param]), s
+		default:
+			return output.(string) == renderInts(s), s
+		}
+	},
+	Equal:             func(a, b interface{}) bool { return a.([nInts]int) == b.([nInts]int) },
+	DescribeOperation: model.DescribeOperation,
+}
+
+func runInts(c ICase, o *vh.Obs) *vh.Failure {
+	if len(c.Clients) < 2 || len(c.Vals) != len(c.Clients) {
+		return nil
+	}
+	procs := c.Procs
+	if procs < 2 {
+		procs = 2
+	}
+	old := runtime.GOMAXPROCS(procs)
+	defer runtime.GOMAXPROCS(old)
+	app := &generator.App{}
+	inst := app.VerifGraph()
+	pids := make([]string, nInts)
+	for k := range pids {
+		_, id, err := inst.CreateNode(refutil.GetTypeWithPackage(new(parameter.Int)))
+		if err != nil {
+			return vh.Failf("harness/create", "%v", err)
+		}
+		pids[k] = id
+		inst.UpdateParameter(id, []byte("0"))
+	}
+	_, ints, err := inst.CreateNode(refutil.GetTypeWithPackage(new(IntsNode)))
+	if err != nil {
+		return vh.Failf("harness/create", "%v", err)
+	}
+	var textType string
+	for _, ty := range inst.Schema().Types {
+		if strings.Contains(ty.Type, "TextNodeData") {
+			textType = ty.Type
+		}
+	}
+	_, txt, _ := inst.CreateNode(textType)
+	for k, id := range pids {
+		inst.ConnectNodes(id, "Out", ints, fmt.Sprintf("Values.%d", k))
+	}
+	inst.ConnectNodes(ints, "Out", txt, "In")
+	inst.SetNodeAsProducer(txt, "ints.txt")
+
+	var clock int64
+	var mu sync.Mutex
+	var hist []porcupine.Operation
+	var crashes []string
+	var wg sync.WaitGroup
+	start := make(chan struct{})
+	do := func(ci, k int, in linIn) {
+		var out string
+		var crashed any
+		call := atomic.AddInt64(&clock, 1)
+		func() {
+			defer func() { crashed = recover() }()
+			switch in.kind {
+			case 0:
+				if _, err := inst.UpdateParameter(pids[in.param], []byte(in.val)); err != nil {
+					crashed = err
+				}
+			case 1:
+				out = string(inst.ParameterData(pids[in.param]))
+			default:
+				b := &bytes.Buffer{}
+				inst.Artifact("ints.txt").Write(b)
+				out = b.String()
+			}
+		}()
+		ret := atomic.AddInt64(&clock, 1)
+		mu.Lock()
+		if crashed != nil {
+			crashes = append(crashes, fmt.Sprintf("client %d op %d (%s): %v", ci, k, model.DescribeOperation(in, out), crashed))
+		}
+		hist = append(hist, porcupine.Operation{ClientId: ci, Input: in, Call: call, Output: out, Return: ret})
+		mu.Unlock()
+	}
+	for ci, script := range c.Clients {
+		if len(c.Vals[ci]) != len(script) {
+			return nil
+		}
+		wg.Add(1)
+		go func(ci int, script []LOp) {
+			defer wg.Done()
+			<-start
+			for k, op := range script {
+				for y := 0; y < op.Yield; y++ {
+					runtime.Gosched()
+				}
+				in := linIn{kind: op.Kind, param: ((op.Param % nInts) + nInts) % nInts}
+				if op.Kind == 0 {
+					in.val = strconv.Itoa(((c.Vals[ci][k] % 40) + 40) % 40)
+				}
+				do(ci, k, in)
+			}
+		}(ci, script)
+	}
+	close(start)
+	wg.Wait()
+	do(0, len(c.Clients[0]), linIn{kind: 2}) // after everybody is done: the final state, whole
+	describe := func() string {
+		sort.Slice(hist, func(i, j int) bool { return hist[i].Call < hist[j].Call })
+		var sb strings.Builder
+		fmt.Fprintf(&sb, "  %d int parameters p0..p%d with node ids %v, all 0 at the start\n", nInts, nInts-1, pids)
+		for _, h := range hist {
+			fmt.Fprintf(&sb, "  [%3d,%3d] client %d: %s\n", h.Call, h.Return, h.ClientId, model.DescribeOperation(h.Input, h.Output))
+		}
+		return sb.String()
+	}
+	if len(crashes) > 0 {
+		sort.Strings(crashes)
+		return vh.Failf("ints/crash", "an operation panicked or failed during a concurrent history: %s\nhistory:\n%s", crashes[0], describe())
+	}
+	if r := vh.RaceReport(); r != "" {
+		return vh.RaceFailure(r)
+	}
+	o.NonTrivial()
+	o.Class(fmt.Sprintf("ints/clients/%d", len(c.Clients)))
+	o.Count("ints-operations", len(hist))
+	if !porcupine.CheckOperations(intsModel, hist) {
+		return vh.Failf("ints/not-linearizable", "no sequential order consistent with real time explains this history (an update was lost, or a value older than a completed update was returned):\n%s", describe())
+	}
+	return nil
+}
+
 func TestC13(t *testing.T) {
 	vh.Drive(t, vh.Spec[Case]{Name: "histories", Quick: 24000, Thorough: 800000, Gen: genCase, Run: runCase, Repeat: 50, Deadline: 20 * time.Second})
 	vh.Drive(t, vh.Spec[Case]{Name: "http-histories", Quick: 6000, Thorough: 200000, Gen: genCase, Run: runHTTP, Repeat: 50, Deadline: 20 * time.Second})
+	vh.Drive(t, vh.Spec[ICase]{Name: "int-histories", Quick: 12000, Thorough: 400000, Gen: genInts, Run: runInts, Repeat: 50, Deadline: 20 * time.Second})
 	vh.Drive(t, vh.Spec[TCase]{Name: "typed-histories", Quick: 12000, Thorough: 400000, Gen: genTyped, Run: runTyped, Repeat: 50, Deadline: 20 * time.Second})
 }
